@@ -32,6 +32,7 @@ func ChopFile(ctx context.Context, name string, chunks []IndexChunk, ws WriteSto
 
 		g.Go(func() error {
 			for c := range in {
+				verifYield("chop.job")
 				// Update progress bar if any
 				pb.Increment()
 
@@ -51,6 +52,7 @@ func ChopFile(ctx context.Context, name string, chunks []IndexChunk, ws WriteSto
 	// Feed the workers, stop if there are any errors
 loop:
 	for _, c := range chunks {
+		verifYield("chop.feed")
 		select {
 		case <-ctx.Done():
 			break loop
